@@ -1,5 +1,5 @@
 (* C12 — calls= and fmap= change how applications are written, never what is written. *)
-From Coq Require Import List String.
+From Coq Require Import List String ZArith.
 Import ListNotations.
 Open Scope string_scope.
 Open Scope list_scope.
@@ -34,3 +34,11 @@ Theorem C12_fmap_is_rename : forall fm r,
   | _, _ => False
   end.
 Proof. exact fmap_is_rename. Qed.
+
+(* non-vacuity: the raw result of  select f(a, NULL) over NULL from t  (a call with a NULL argument and a NULL keyword argument) meets the premises *)
+Example C12_premise_satisfiable :
+  let r0 := RPR true [("select", [RPR true [("value", [RCall "f" (RList [RStr "a"; RMark]) [("over", RMark)]])] []]); ("from", [RStr "t"])] [] in
+  goodb MSimple [] r0 = true /\ goodb MNormal [("f", "g")] r0 = true /\ nofakeb [] r0 = true /\ nofakeb_n [("f", "g")] r0 = true /\
+  parse_result MSimple [] (JInt 7%Z) r0
+    = Some (JDict [("select", JDict [("value", JDict [("over", JInt 7%Z); ("f", JList [JStr "a"; JInt 7%Z])])]); ("from", JStr "t")]).
+Proof. vm_compute. repeat split; reflexivity. Qed.
